@@ -239,7 +239,11 @@ func (e *Env) unflatten(t types.Type, terms *[]string) Value {
 	case *types.Interface:
 		return &Iface{T: take(), Typ: t}
 	case *types.Signature:
-		return &FuncV{Abs: take(), Typ: t}
+		a := take()
+		if fv, ok := e.funcByID[a]; ok {
+			return &FuncV{Fn: fv.Fn, Bind: fv.Bind, Typ: t}
+		}
+		return &FuncV{Abs: a, Typ: t}
 	default:
 		return &Sc{T: take(), Sort: e.scalarSort(t), Typ: t}
 	}
